@@ -1500,4 +1500,4 @@ MANIFEST = {
     'design_ref': 'DESIGN.md 3/C05',
 }
 MANIFEST['note'] += (' Also decided here (necessary conditions shared between properties or added after the independent '
-                     'change rounds, DESIGN.md 8.7): ICV table (from C07), Message.to_bytes keeps nothing, critical-payload error not re-labelled, constructors keep their values, registry consistency.')
+                     'change rounds, DESIGN.md 8.7): ICV table (from C07), Message.to_bytes keeps nothing, critical-payload error not re-labelled, constructors keep their values, registry consistency. Rounds 7-8: no exception leaves Message.to_dict; nonce length window evaluated at its bounds.')
